@@ -209,6 +209,7 @@ fn payload_string(p: &(dyn std::any::Any + Send)) -> String {
 /// Executes `plan` in world A and returns everything observed.
 pub fn run_world_a(plan: &Rc<Plan>) -> Result<History, String> {
     let core = SimCore::new(plan.sched.clone());
+    core.quiesce_polls.set(crate::check::quiesce_polls_for(plan));
     core::install_hooks(&core);
     let ctx = world::install_run(&core, plan, false);
     install_counting_hook();
